@@ -27,7 +27,7 @@ def _trap(cfg, expect):
     for _label, text in res.counterexample:
         m = re.search(r"^/\\ scn = (.*?)(?=^/\\ |\Z)", text, flags=re.M | re.S)
         if m and scn is None:
-            scn = to_json(parse_value(m.group(1)))
+            scn = {k: v for k, v in to_json(parse_value(m.group(1))).items() if k in ("sched", "workerOf", "W")}
             fault = str(parse_value(re.search(r"^/\\ flt = (.*?)(?=^/\\ |\Z)", text, flags=re.M | re.S).group(1))["kind"])
         ma = re.search(r"^/\\ act = (.*?)(?=^/\\ |\Z)", text, flags=re.M | re.S)
         if ma:
@@ -51,7 +51,7 @@ def run(ctx, out):
         "'in bounded time' is decided as: under fair scheduling the failure reaches race control (liveness in the model; on the real code: reported before the recorded race can make no further progress). Each hop costs at most one wake-up interval (0.5-5 s).",
         "results stored = race.json of the scratch FileRaceStore contains 'results' or reporter.summarize was called",
     ]
-    rc.model_check(out, ["RaceDriver.c09.quick.cfg", "RaceDriver.c09.live.cfg"], timeout=3000)
+    rc.model_check(out, ["RaceDriver.c09.quick.cfg", "RaceDriver.c09.live.cfg"] if ctx.quick else ["RaceDriver.c09.thorough.cfg", "RaceDriver.c09.live.thorough.cfg"], timeout=3000)
     traps = [_trap("RaceDriver.c09.pinned.cfg", "NoResultsOnFailure"), _trap("RaceDriver.c09.rcstore.cfg", "NoResultsOnFailure")]
     out.extra["model_selftest"] = (
         "pinned variant (SelfFailFix=FALSE) violates NoResultsOnFailure for a periodic store failure; the rcstore fault (race control's bulk_add fails for TaskFinished) "
@@ -60,7 +60,7 @@ def run(ctx, out):
     jobs = []
     for scn, script, fault in traps:
         jobs.append({"scn": scn, "script": script, "seed": ctx.seed, "test_mode": True, "qmax": 100, "fault": fault})
-    beh = rc.behaviours(ctx, out, 40 if ctx.quick else 500, 110, cfg="RaceDriver.c09.sim.cfg", seed_off=9, with_fault=True)
+    beh = rc.behaviours(ctx, out, 100 if ctx.quick else 1000, 110, cfg="RaceDriver.c09.sim.cfg", seed_off=9, with_fault=True)
     for i, (scn, script, fault) in enumerate(beh):
         jobs.append({"scn": scn, "script": script, "seed": ctx.seed + i, "test_mode": True, "qmax": 100, "fault": fault, "req_variant": ["conn_error", "api_error", "runner"][i % 3]})
     scns = []
@@ -72,7 +72,7 @@ def run(ctx, out):
     import random
 
     rnd = random.Random(ctx.seed + 909)
-    reps = 1 if ctx.quick else 8
+    reps = 2 if ctx.quick else 10
     for i, scn in enumerate(scns):
         for kind in KINDS:
             for k in range(reps):
